@@ -65,6 +65,10 @@ def build_traces(path, tier, seed):
         # both implementations on the SAME array, one after the other in either order (a record is still the record after it
         # has been transformed), or on copies
         xa = np.array(x, dtype=float)
+        if n % 3 == 0:
+            # helper results for this record's size were handed out and overwritten by the caller just before
+            gen._scribble(stockwell.generate_gaussian(n // 2))
+            gen.array_noise(rng, xa, k=1)
         if n % 2:
             s2 = np.asarray(stockwell.transform_w_scipy_fft(xa))
             s1 = np.asarray(stockwell.transform(xa if n % 4 == 1 else x.copy()))
@@ -114,6 +118,8 @@ def build_traces(path, tier, seed):
     for n, fn in plan:
         x, shape = gen.record(rng, n, amp=1.0)
         xa = np.array(x, dtype=float)
+        if rng.integers(2):
+            gen._scribble(stockwell.generate_gaussian(n // 2))
         if rng.integers(2):
             other = stockwell.transform if fn is stockwell.transform_w_scipy_fft else stockwell.transform_w_scipy_fft
             other(xa)                  # the same array went through the other implementation first
